@@ -377,6 +377,7 @@ def run(ctx):
                        "%d runs with 40..1030 ready fibers judged a violation" % bad)
             ctx.coverage["sched_big_runs"] = nb
     core.init_contract(ctx, ["fiber_scheduler_wsd"])
+    runtime_layer(ctx)
     core.finish(ctx, extra_assumptions=ASSUME)
 
 
@@ -398,7 +399,80 @@ def search(ctx, exe):
         run_big(ctx, exe)
 
 
+def rt_bypass_monitor(case, tr, raw):
+    """C10 on the whole real runtime with ONE kernel thread (no stealing to mask starvation): between the moment a fiber
+    is queued as ready (schedule event) and the moment the run queue hands it out, at most 2(n-1) other hand-outs may
+    happen, n = number of fibers that exist (the bound of yield_bounded_bypass)."""
+    if tr is None:
+        return "implementation produced no trace: %s" % (raw or "")[:80]
+    nfib = 0
+    waiting = {}      # queued fiber -> hand-outs of other fibers since it was queued
+    for (t, loc, kind, val) in tr:
+        if kind == -9:
+            return "the runtime crashed (signal %d)" % val
+        if kind != 919:
+            continue
+        if loc in (957, 958):
+            nfib += 1
+        elif loc == 951:
+            waiting.setdefault(val, 0)
+        elif loc == 952:
+            waiting.pop(val, None)
+            bound = 2 * max(nfib - 1, 1)
+            for g in waiting:
+                waiting[g] += 1
+                if waiting[g] > bound:
+                    return ("ready fiber %d was bypassed %d times by the run queue of its (only) kernel thread while %d fibers "
+                            "exist (bound 2(n-1) = %d)" % (g, waiting[g], nfib, bound))
+        elif loc == 956:
+            nfib = max(nfib - 1, 1)
+            waiting.pop(val, None)
+    return None
+
+
+def runtime_layer(ctx):
+    """the scheduler as the runtime uses it (fiber_manager_yield, the wake-up paths of the blocking primitives, the
+    deferred re-queue of a yielder), which rt/h_sched.c reproduces by hand: whole-runtime runs on ONE kernel thread with
+    yield-pollers, a victim that yields once, and pairs of fibers that keep waking each other (two-party barrier, mutex
+    and condition hand-offs), judged by the bypass oracle above and by the C01 monitor."""
+    from vf.props import C01
+    exe = C01.build(ctx)
+    if not exe:
+        return
+    rng = random.Random(ctx.seed * 7919 + 1010)
+    cases = []
+    n = 60 if ctx.tier == "quick" else 1500
+    for _ in range(n):
+        k = rng.randint(4, 40)
+        progs = [[(24, 0)] * k, [(24, 0)] * k]                       # the wake chain
+        progs.append([(1, 0)] * rng.randint(1, 3))                    # the victim: yields, then is done
+        for _f in range(rng.randint(0, 3)):                           # more yielders / lockers
+            progs.append([(rng.choice([1, 1, 2, 3, 4, 5]), rng.randint(0, 1)) for _ in range(rng.randint(1, 6))])
+        rng.shuffle(progs)
+        cases.append(core.fmt_case([200000, 1], progs, []))
+    impl = core.run_sharded([exe], cases, timeout=900)
+    bad = 0
+    for c, line in zip(cases, impl):
+        tr = core.parse_trace(line) if line is not None else None
+        why = core.safe_monitor(rt_bypass_monitor, c, tr, line) or core.safe_monitor(C01.monitor, c, tr, line)
+        if why:
+            bad += 1
+            if bad <= 3:
+                core.report_violation(ctx, "kernel", c, "whole-runtime fairness layer (1 kernel thread): " + why, line)
+    ctx.coverage["runtime_fairness_layer_t2"] = {"runs": len(cases), "violations": bad}
+    ctx.oblige("fairness-t2(%d runs)" % len(cases), bad == 0, "%d runs judged a violation" % bad)
+
+
 def replay(ctx, payload):
+    if payload.get("harness") == "kernel":
+        from vf.props import C01
+        exe = C01.build(ctx)
+        c = payload.get("case")
+        line = core.run_sharded([exe], [c], timeout=900)[0]
+        tr = core.parse_trace(line) if line is not None else None
+        why = core.safe_monitor(rt_bypass_monitor, c, tr, line) or core.safe_monitor(C01.monitor, c, tr, line)
+        print("case: %s\nmonitor: %s" % (c[:300], why or "ok"))
+        return 1 if why else 0
     if payload.get("harness") == "h_init":
         return core.replay_init(ctx, payload)
     exe = build(ctx)
